@@ -258,7 +258,7 @@ def rule_index_input(facts, rid):
                     roots.add((i, ty or "?"))
                     continue
                 st += [x["path"]["id"] for x in find(init, lambda y: y.get("k") == "Path" and y["path"].get("id") is not None)]
-            bad = sorted(t for i, t in roots if not re.match(r"^&?\(jaq_core::filter::Ctx<", t))
+            bad = sorted(t for i, t in roots if t != "?" and not re.match(r"^&?\(?jaq_core::filter::Ctx<", t))
             r.examined((mode, n["sp"]), True, {"evaluator": mode, "index_filter_argument_built_from": sorted(t[:50] for i, t in roots)})
             if bad:
                 r.violate(f"index-input/{mode}", f"TermId::{mode}, Path: the argument of an index filter is built from a value of type {bad} (an output of the subject), not only from the term's context-and-input pair: `(.a)[.k]` looks `.k` up in the wrong value in this evaluator", where=n["sp"])
